@@ -18,12 +18,13 @@ RULE = (
     "operations: enter(r) for r in {fresh Runtime(), runtime derived elsewhere with T1->hA, derived-from-current via "
     "runtime.handle(T1,hB) / handle({T2:hB}), the currently active runtime (re-entry), an already used runtime}, exit, "
     "exit-by-exception, derive (checks parent table unchanged), register-default(T2) (once), run(T1), run(T2), "
-    "current-runtime probe; start states: thread without runtime, with current_runtime() touched, with inherit(parent); "
-    "BFS to depth 6 quick / 8 thorough with dedup on (model stack, real state); with-programs: all trees up to 5 / 7 "
+    "re-registration of the T2 default, current-runtime probe; start states: thread without runtime, with "
+    "current_runtime() touched, with inherit(parent), thread started after a worker that inherited a handler has died; "
+    "BFS to depth 6 quick / 8 thorough with dedup on (model stack, real state); with-programs: all trees up to 3 / 5 "
     "nodes. Non-trivial = history with nesting depth >= 2 or a re-entry or a late default."
 )
 ASSUMPTIONS = [
-    "a default handler is registered at most once per request type inside a history (DESIGN section 5)",
+    "when a default is re-registered, a runtime created while the older default was current may serve either (it may hold a copy); a runtime created before the first registration must serve the newest",
     "request types T1 (default registered before any runtime exists) and T2 (default registered late or never)",
 ]
 
@@ -70,6 +71,10 @@ class Sys:
         # model: each runtime = dict of explicit overrides {typename: tag}
         self.model_tables = {id(self.R_other): {"T1": "hA"}, id(self.R_plain): {}, id(self.R_parent): {"T1": "hP"}}
         self.defaults = {"T1": "d1"}
+        self.ever = {"T1": {"d1"}, "T2": set()}  # every default ever registered per type
+        # defaults a runtime may hold as a copy taken when it (or a runtime it derives from) was created
+        self.snaps = {id(self.R_other): set(), id(self.R_plain): set(), id(self.R_parent): set()}
+        self.base_snap = set()
         self.stack = []  # entered runtime objects (model)
         self.base = None  # model table of the runtime below the stack
         self.fails = []
@@ -83,12 +88,26 @@ class Sys:
         return self.base if self.base is not None else {}
 
     def model_serve(self, tname):
+        """Set of acceptable answers.  A runtime serves with the handler it holds, else with the default
+        registered for the type.  When a default was re-registered, a runtime created while the older
+        default was current may hold a copy of it: both readings are accepted for such a runtime only."""
         t = self.model_current_table()
         if tname in t:
-            return t[tname]
+            return {t[tname]}
+        out = set()
         if tname in self.defaults:
-            return self.defaults[tname]
-        return "TypeError"
+            out.add(self.defaults[tname])
+        if tname == "T2":
+            if self.stack:
+                out |= self.snaps.get(id(self.stack[-1]), set())
+            elif self.start in ("none", "after-dead-inheritor"):
+                out |= self.ever["T2"]  # the thread's own runtime is created on first use, at an unobserved moment
+            else:
+                out |= self.base_snap
+        return out or {"TypeError"}
+
+    def _snap_now(self):
+        return {self.defaults["T2"]} if "T2" in self.defaults else set()
 
     # ---- operations on the real thing -----------------------------------
     def begin(self):
@@ -100,6 +119,7 @@ class Sys:
             rt.inherit(self.parent_thread)
             self.base = {"T1": "hP"}
         else:
+            # 'none' and 'after-dead-inheritor': this thread never touched the runtime machinery
             self.base = {}
 
     def op(self, o):
@@ -133,6 +153,7 @@ class Sys:
             tbl = dict(self.model_tables[id(src)])
             tbl[o[2]] = "hB"
             self.model_tables[id(new)] = tbl
+            self.snaps[id(new)] = set(self.snaps.get(id(src), set())) | self._snap_now()
             self.derived.append(new)
         elif kind == "derive_cur":
             if len(self.derived) >= 2:
@@ -146,12 +167,25 @@ class Sys:
                 new = rt.handle(self.T1, self.hB)
                 cur_tbl["T1"] = "hB"
             self.model_tables[id(new)] = cur_tbl
+            if self.stack:
+                base = set(self.snaps.get(id(self.stack[-1]), set()))
+            else:
+                base = set(self.ever["T2"]) if self.start in ("none", "after-dead-inheritor") else set(self.base_snap)
+            self.snaps[id(new)] = base | self._snap_now()
             self.derived.append(new)
         elif kind == "regdef":
             if "T2" in self.defaults:
                 return False
             rt.handle_by_default(self.T2, tagger("d2"))
             self.defaults["T2"] = "d2"
+            self.ever["T2"].add("d2")
+        elif kind == "regdef2":
+            # re-registration: the newest default is "the default registered for that type"
+            if self.defaults.get("T2") != "d2":
+                return False
+            rt.handle_by_default(self.T2, tagger("d2b"))
+            self.defaults["T2"] = "d2b"
+            self.ever["T2"].add("d2b")
         elif kind == "run":
             T = self.T1 if o[1] == "T1" else self.T2
             want = self.model_serve(o[1])
@@ -162,8 +196,8 @@ class Sys:
             except Exception as e:  # noqa
                 got = f"{type(e).__name__}: {e}"
             self.obs.append((o, got))
-            if got != want:
-                self.fails.append(("wrong-handler", f"{o}: served by {got!r}, model says {want!r}"))
+            if got not in want:
+                self.fails.append(("wrong-handler", f"{o}: served by {got!r}, model says {sorted(want)!r}"))
         elif kind == "probe":
             # the current runtime must be the top of the stack (identity) when something is entered
             try:
@@ -180,6 +214,7 @@ class Sys:
         if name == "fresh":
             r = self.rt.Runtime()
             self.model_tables[id(r)] = {}
+            self.snaps[id(r)] = self._snap_now()
             self._keep = getattr(self, "_keep", []) + [r]
             return r
         if name == "other":
@@ -227,6 +262,34 @@ class Sys:
                 tuple(tuple(sorted(self.model_tables[id(d)].items())) for d in self.derived))
 
 
+def _dead_inheritor(s):
+    """A worker inherits the parent's runtime (T1 -> hP) and terminates, then the parent leaves its block.
+    The thread started next never touched the runtime machinery and must be served by the defaults; the
+    operating system recycles the identifiers of finished threads, thread OBJECTS are never recycled."""
+    rt = s.rt
+    ready, done = threading.Event(), threading.Event()
+
+    def parent():
+        with s.R_parent:
+            ready.set()
+            done.wait(5)
+
+    pt = threading.Thread(target=parent)
+    pt.start()
+    ready.wait(5)
+
+    def worker():
+        rt.inherit(pt)
+        s.T1().run()
+
+    w = threading.Thread(target=worker)
+    w.start()
+    w.join(5)
+    done.set()
+    pt.join(5)
+    s._dead = [pt, w]
+
+
 def execute(start, hist):
     """Run one history in a fresh thread on fresh request types. Returns (fails, obs, state, applicable)."""
     import labrea.runtime as rt
@@ -268,6 +331,8 @@ def execute(start, hist):
         pt.start()
         parent_ready.wait(5)
         s.parent_thread = pt
+    if start == "after-dead-inheritor":
+        _dead_inheritor(s)
     t = threading.Thread(target=worker)
     t.start()
     t.join(20)
@@ -276,7 +341,9 @@ def execute(start, hist):
         pt.join(5)
     # clean the global tables of this history's threads and request types
     with rt.lock:
-        for th in [t, pt]:
+        for k in [k for k in list(rt._RUNTIMES) if not isinstance(k, threading.Thread)]:
+            rt._RUNTIMES.pop(k, None)  # a registry keyed by anything else than the thread object
+        for th in [t, pt] + getattr(s, "_dead", []):
             if th is not None:
                 rt._RUNTIMES.pop(th, None)
         rt._DEFAULT_HANDLERS.pop(s.T1, None)
@@ -288,9 +355,9 @@ MENU = (
     [("enter", r) for r in ("fresh", "other", "plain", "cur", "below", "d0", "d1")]
     + [("exit",), ("exitx",)]
     + [("derive", "other", "T2"), ("derive", "cur", "T1"), ("derive_cur", "pair"), ("derive_cur", "map")]
-    + [("regdef",), ("run", "T1"), ("run", "T2"), ("probe",)]
+    + [("regdef",), ("regdef2",), ("run", "T1"), ("run", "T2"), ("probe",)]
 )
-STARTS = ["none", "touched", "inherit"]
+STARTS = ["none", "touched", "inherit", "after-dead-inheritor"]
 
 
 def cases(tier, seed):
@@ -300,7 +367,7 @@ def cases(tier, seed):
     for start in STARTS:
         for first in range(len(MENU)):
             out.append(("bfs", start, first, depth))
-    nodes = 4 if tier == "quick" else 5
+    nodes = 3 if tier == "quick" else 5
     for start in STARTS:
         for first in range(len(WITH_ATOMS) + len(WITH_POOL)):
             out.append(("with", start, first, nodes))
@@ -311,7 +378,7 @@ def cases(tier, seed):
 # real with-blocks
 
 WITH_POOL = ["fresh", "other", "cur", "dcur"]
-WITH_ATOMS = [("run", "T1"), ("run", "T2"), ("regdef",), ("probe",)]
+WITH_ATOMS = [("run", "T1"), ("run", "T2"), ("regdef",), ("regdef2",), ("probe",)]
 
 
 def programs(n):
@@ -357,6 +424,7 @@ def run_program(start, prog):
                     tbl["T1"] = "hB"
                     r = rt.handle(s.T1, s.hB)
                     s.model_tables[id(r)] = tbl
+                    s.snaps[id(r)] = (set(s.snaps.get(id(s.stack[-1]), set())) if s.stack else (set(s.ever["T2"]) if s.start in ("none", "after-dead-inheritor") else set(s.base_snap))) | s._snap_now()
                 elif rname == "cur":
                     r = s.stack[-1] if s.stack else s.R_plain
                 else:
@@ -401,6 +469,8 @@ def run_program(start, prog):
         pt.start()
         parent_ready.wait(5)
         s.parent_thread = pt
+    if start == "after-dead-inheritor":
+        _dead_inheritor(s)
     t = threading.Thread(target=worker)
     t.start()
     t.join(20)
@@ -408,7 +478,9 @@ def run_program(start, prog):
         parent_done.set()
         pt.join(5)
     with rt.lock:
-        for th in [t, pt]:
+        for k in [k for k in list(rt._RUNTIMES) if not isinstance(k, threading.Thread)]:
+            rt._RUNTIMES.pop(k, None)
+        for th in [t, pt] + getattr(s, "_dead", []):
             if th is not None:
                 rt._RUNTIMES.pop(th, None)
         rt._DEFAULT_HANDLERS.pop(s.T1, None)
